@@ -116,12 +116,158 @@ func checkC03(p *Prog, l *Ledger) {
 	}
 }
 
+var envCtorCache = map[*Prog]map[*ssa.Function]string{}
+
+// EnvCtors: the functions of package environment that make a scope, found by what they do: on their only path they
+// allocate one Environment, store a table made on the spot in Values and — "child" — their one parameter (or receiver)
+// in Parent, or — "root" — nothing (or nil) there, and hand that Environment back; or they hand back what another such
+// function makes for their own one parameter.
+func (p *Prog) EnvCtors() map[*ssa.Function]string {
+	if m, ok := envCtorCache[p]; ok {
+		return m
+	}
+	out := map[*ssa.Function]string{}
+	envCtorCache[p] = out
+	isEnvPtr := func(t types.Type) bool {
+		pt, ok := t.(*types.Pointer)
+		return ok && typeStr(pt.Elem()) == "environment.Environment"
+	}
+	var cands []*ssa.Function
+	for _, fn := range p.ModuleFuncs() {
+		if fnPkgName(fn) != "environment" || fn.Parent() != nil || len(fn.Blocks) != 1 || len(fn.Params) > 1 {
+			continue
+		}
+		res := fn.Signature.Results()
+		if res.Len() != 1 || !isEnvPtr(res.At(0).Type()) {
+			continue
+		}
+		if len(fn.Params) == 1 && !isEnvPtr(fn.Params[0].Type()) {
+			continue
+		}
+		cands = append(cands, fn)
+	}
+	for _, fn := range cands {
+		var alloc *ssa.Alloc
+		kind, ok := "root", true
+		nValues := 0
+		for _, in := range fn.Blocks[0].Instrs {
+			switch x := in.(type) {
+			case *ssa.Alloc:
+				if alloc != nil || typeStr(derefT(x.Type())) != "environment.Environment" {
+					ok = false
+				}
+				alloc = x
+			case *ssa.FieldAddr, *ssa.MakeMap, *ssa.DebugRef:
+			case *ssa.Store:
+				fa, isFA := x.Addr.(*ssa.FieldAddr)
+				if !isFA || alloc == nil || fa.X != ssa.Value(alloc) {
+					ok = false
+					break
+				}
+				switch _, f := structKey(fa.X.Type(), fa.Field); f {
+				case "Values":
+					if _, fresh := x.Val.(*ssa.MakeMap); !fresh {
+						ok = false
+					}
+					nValues++
+				case "Parent":
+					if prm, isP := x.Val.(*ssa.Parameter); isP && len(fn.Params) == 1 && prm == fn.Params[0] {
+						kind = "child"
+					} else if c, isC := x.Val.(*ssa.Const); !isC || !c.IsNil() {
+						ok = false
+					}
+				default:
+					ok = false
+				}
+			case *ssa.Return:
+				if alloc == nil || len(x.Results) != 1 || x.Results[0] != ssa.Value(alloc) {
+					ok = false
+				}
+			default:
+				ok = false
+			}
+		}
+		if ok && alloc != nil && nValues == 1 && (kind == "child") == (len(fn.Params) == 1) {
+			out[fn] = kind
+		}
+	}
+	// delegation: return ctor(own parameter) / return ctor()
+	for changed := true; changed; {
+		changed = false
+		for _, fn := range cands {
+			if out[fn] != "" {
+				continue
+			}
+			var call *ssa.Call
+			ok := true
+			for _, in := range fn.Blocks[0].Instrs {
+				switch x := in.(type) {
+				case *ssa.Call:
+					if call != nil {
+						ok = false
+					}
+					call = x
+				case *ssa.Return:
+					if call == nil || len(x.Results) != 1 || x.Results[0] != ssa.Value(call) {
+						ok = false
+					}
+				case *ssa.DebugRef:
+				default:
+					ok = false
+				}
+			}
+			if !ok || call == nil {
+				continue
+			}
+			c := call.Call.StaticCallee()
+			k := out[c]
+			if k == "" || len(call.Call.Args) != len(fn.Params) {
+				continue
+			}
+			if len(fn.Params) == 1 && call.Call.Args[0] != ssa.Value(fn.Params[0]) {
+				continue
+			}
+			out[fn] = k + " (through " + fnName(c) + ")"
+			changed = true
+		}
+	}
+	return out
+}
+
+// EnvCtorKind: "root", "child" or "" for callee.
+func (p *Prog) EnvCtorKind(callee *ssa.Function) string {
+	k := p.EnvCtors()[callee]
+	if i := strings.Index(k, " "); i > 0 {
+		k = k[:i]
+	}
+	return k
+}
+
 func checkEnvConstructors(p *Prog, l *Ledger) {
 	rule := "C03/S1-environment-shape"
+	named := map[*ssa.Function]bool{}
+	kinds := map[string]int{}
+	var others []*ssa.Function
+	for fn, k := range p.EnvCtors() {
+		kinds[strings.SplitN(k, " ", 2)[0]]++
+		others = append(others, fn)
+	}
+	sort.Slice(others, func(i, j int) bool { return p.FuncKey(others[i]) < p.FuncKey(others[j]) })
 	for _, name := range []string{"NewEnvironment", "NewEnvironmentWithParent"} {
 		fn := p.Func("environment." + name)
 		if fn == nil {
-			l.Undecide(rule, "environment."+name, "", "constructor not found")
+			want := "root"
+			if name == "NewEnvironmentWithParent" {
+				want = "child"
+			}
+			if kinds[want] == 0 {
+				l.Undecide(rule, "environment."+name, "", "constructor not found")
+			}
+			continue
+		}
+		named[fn] = true
+		if k := p.EnvCtors()[fn]; strings.Contains(k, "through") {
+			l.Discharge(rule, "environment."+name, p.Pos(fn.Pos()), "hands back what another constructor makes for the same parent: "+k, true)
 			continue
 		}
 		m := NewInterpModel(p, name)
@@ -158,11 +304,16 @@ func checkEnvConstructors(p *Prog, l *Ledger) {
 			l.Violate(rule, "environment."+name, p.Pos(fn.Pos()), "constructor: "+why)
 		}
 	}
+	for _, fn := range others {
+		if !named[fn] {
+			l.Discharge(rule, p.FuncKey(fn), p.Pos(fn.Pos()), "a constructor by what it does: fresh table; Parent = its one argument (nil for the root): "+p.EnvCtors()[fn], true)
+		}
+	}
 	// who constructs / who writes the fields / who ranges over Values
 	n := 0
 	for _, fn := range p.ModuleFuncs() {
 		fk := p.FuncKey(fn)
-		inEnvCtor := fk == "environment.NewEnvironment" || fk == "environment.NewEnvironmentWithParent"
+		inEnvCtor := fk == "environment.NewEnvironment" || fk == "environment.NewEnvironmentWithParent" || p.EnvCtors()[fn] != ""
 		instrsOf(fn, func(in ssa.Instruction) {
 			switch x := in.(type) {
 			case *ssa.Alloc:
@@ -186,8 +337,8 @@ func checkEnvConstructors(p *Prog, l *Ledger) {
 			}
 		})
 	}
-	if n == 2 {
-		l.Discharge(rule, "who-constructs(Environment)", "", "exactly the two constructors allocate environments; fields are never rewritten; tables are never iterated", true)
+	if n >= 2 {
+		l.Discharge(rule, "who-constructs(Environment)", "", "only the constructors allocate environments; fields are never rewritten; tables are never iterated", true)
 	} else if n < 2 {
 		l.Violate(rule+"/vacuity", "who-constructs(Environment)", "", fmt.Sprintf("%d Environment allocations found", n))
 	}
